@@ -28,7 +28,8 @@ def scenarios(rng, tier):
         cfg = Cfg(0, **kw)
         s.start('attr_%d' % k); s.lines.append(cfg.line())
         s.lines.append(gline(host=bytes((rng.randrange(1, 256) if (k % 3 or i_ % 2 == 0) else 0) for i_ in range((k * 7) % 41)), retfull=rng.randrange(2)))   # every third name UCS-2 like: zero bytes inside
-        s.frame(0, discover(mac(1), tos=rng.choice([0, 1]), gen=rng.randrange(65536)))
+        tos0, gen0 = rng.choice([0, 1]), rng.randrange(65536)
+        s.frame(0, discover(mac(1), tos=tos0, gen=gen0))
         if k % 4 == 1:
             # earlier traffic must leave no trace in a later Hello: observations, a QueryResp with several descriptors, large-TLV
             # responses, then another Discover (same session, no Reset)
@@ -41,7 +42,7 @@ def scenarios(rng, tier):
             kw3 = dict(kw)
             for f in ('iftypefail', 'ipv4fail', 'ipv6fail', 'speedfail', 'bssidfail', 'ratefail', 'rssifail', 'macfail'): kw3[f] = 0 if kw.get(f) else (1 if rng.random() < 0.3 else 0)
             s.lines.append(Cfg(0, **kw3).line())
-            s.frame(0, discover(mac(1), tos=rng.choice([0, 1]), gen=rng.randrange(65536)))
+            s.frame(0, discover(mac(1), tos=tos0, gen=gen0) if k % 8 == 2 else discover(mac(1), tos=rng.choice([0, 1]), gen=rng.randrange(65536)))
         if k % 4 == 0:
             # the attributes change while the session goes on: the next Hello must carry the current ones
             kw2 = dict(kw); kw2.update(ipv4=rng.randrange(2 ** 32), speed=rng.choice(B32), flags=rng.randrange(65536), ipv6=bytes(rng.randrange(256) for _ in range(16)))
@@ -52,7 +53,8 @@ def scenarios(rng, tier):
                 else: kw2.update(wifi=rng.choice([0, 1, 2]), bssid=bytes(rng.randrange(256) for _ in range(6)), ssid=b'net-%d' % k, rate=rng.randrange(65536), rssi=-60)
             s.lines.append(Cfg(0, **kw2).line())
             s.lines.append(gline(host=bytes(rng.choice([0, 0, rng.randrange(256), rng.randrange(1, 256)]) for _ in range(rng.randrange(41))), retfull=rng.randrange(2)))
-            s.frame(0, discover(mac(1), tos=rng.choice([0, 1]), gen=rng.randrange(65536)))
+            # the same round again (same service, same generation) in every other case: the Hello still carries the CURRENT attributes
+            s.frame(0, discover(mac(1), tos=tos0, gen=gen0) if k % 8 in (0, 4) and k % 16 != 0 or k % 8 == 4 else discover(mac(1), tos=rng.choice([0, 1]), gen=rng.randrange(65536)))
     oth = other_iface_variants(s.text(), rng, 10 if tier == 'quick' else 150)
     return [(s.text(), {}), (oth, {'family': 'other-interface'})]
 def project(blk, name, meta):
